@@ -23,7 +23,7 @@ SMARTS = ['[C;D3]', 'C-C', 'C=O', 'c:c:n', '[N,O;D1]', 'C(=O)O', 'C1CC1', '[C;r6
 CONFIG = {
     'quick': {'shards': 16, 'budget_s': 300, 'n_targets': 2400, 'per_target': 24,
               'floors': {'evaluations': 20000, 'distinct_nontrivial': 5000, 'pairs.compared': 18000, 'pairs.nonempty': 6000,
-                         'ops.is_substructure': 3000, 'ops.automorphism': 800, 'opt.scope': 1500, 'patterns.multi-component': 600}},
+                         'ops.is_substructure': 3000, 'ops.automorphism': 800, 'opt.scope': 1500, 'patterns.multi-component': 600, 'patterns.semantic': 3000}},
     'thorough': {'shards': 16, 'budget_s': 1800, 'n_targets': 4200, 'per_target': 200,
                  'floors': {'evaluations': 150000, 'distinct_nontrivial': 40000, 'pairs.compared': 120000,
                             'pairs.nonempty': 40000, 'ops.is_substructure': 20000, 'ops.automorphism': 3000,
@@ -35,7 +35,7 @@ def key(d):
     return tuple(sorted(d.items()))
 
 
-def check_pair(ctx, p, t, pname, tname, rng, is_query):
+def check_pair(ctx, p, t, pname, tname, rng, is_query, atom_eq=None):
     ctx.evaluations += 1
     af = rng.random() < .5
     scope = None
@@ -44,7 +44,7 @@ def check_pair(ctx, p, t, pname, tname, rng, is_query):
         ctx.count('opt.scope')
     w = {'pattern': pname, 'target': tname, 'automorphism_filter': af, 'scope': sorted(scope) if scope else None,
          'kind': 'query' if is_query else 'molecule'}
-    ref = E.embeddings(p._atoms, p._bonds, t._atoms, t._bonds, scope=scope)
+    ref = E.embeddings(p._atoms, p._bonds, t._atoms, t._bonds, scope=scope, atom_eq=atom_eq)
     if len(ref) >= 200000:
         ctx.count('pairs.reference-too-large')
         return
@@ -110,6 +110,37 @@ def check_pair(ctx, p, t, pname, tname, rng, is_query):
                 ctx.violation('operator-disagrees/%s' % k2, '%s %s %s: %r, embeddings exist: %r (sizes %d/%d)' % (
                     pname, k2, tname, v, full, len(p), len(t)), w)
                 return
+
+
+# patterns whose atoms are judged by the meaning of the SMARTS (written here as predicates on the target atom), not by the library's `==`:
+# element lists combined with ring sizes / not-in-ring / neighbour counts - the one combination the shared predicate classes differ in
+def _el(*syms):
+    return lambda a: a.atomic_symbol in syms
+
+
+def _plain(a):
+    # a SMARTS atom without charge / radical mark means a neutral closed-shell atom in this library
+    return not a.charge and not a.is_radical
+
+
+SEMANTIC = [
+    ('[C,N;r5,r6]', [lambda a: _plain(a) and a.atomic_symbol in ('C', 'N') and bool({5, 6} & set(a.ring_sizes))]),
+    ('[C,N;r6]', [lambda a: _plain(a) and a.atomic_symbol in ('C', 'N') and 6 in a.ring_sizes]),
+    ('[C,N,O;!R]', [lambda a: _plain(a) and a.atomic_symbol in ('C', 'N', 'O') and not a.ring_sizes]),
+    ('[N,O;r5,r6,r7]-[C;r6]', [lambda a: _plain(a) and a.atomic_symbol in ('N', 'O') and bool({5, 6, 7} & set(a.ring_sizes)),
+                               lambda a: _plain(a) and a.atomic_symbol == 'C' and 6 in a.ring_sizes]),
+    ('[C,S;r3,r4,r5]', [lambda a: _plain(a) and a.atomic_symbol in ('C', 'S') and bool({3, 4, 5} & set(a.ring_sizes))]),
+    ('[C;r5,r6]', [lambda a: _plain(a) and a.atomic_symbol == 'C' and bool({5, 6} & set(a.ring_sizes))]),
+    ('[A;r5,r6]', [lambda a: _plain(a) and bool({5, 6} & set(a.ring_sizes))]),
+    ('[C,N;!R]-[C,N;r6]', [lambda a: _plain(a) and a.atomic_symbol in ('C', 'N') and not a.ring_sizes, lambda a: _plain(a) and a.atomic_symbol in ('C', 'N') and 6 in a.ring_sizes]),
+]
+
+
+def semantic_patterns(ctx, t, tname, rng, compiled):
+    for text, q, preds in compiled:
+        table = {id(q._atoms[n]): f for n, f in zip(q._atoms, preds)}
+        ctx.count('patterns.semantic')
+        check_pair(ctx, q, t, text + ' (meaning)', tname, rng, True, atom_eq=lambda qa, ta: table[id(qa)](ta))
 
 
 def why_invalid(p, t, mp):
@@ -224,6 +255,14 @@ def worker(ctx):
             queries.append((s, smarts(s)))
         except Exception as e:
             ctx.note('SMARTS %s not parsed: %r' % (s, e))
+    compiled = []
+    for text, preds in SEMANTIC:
+        try:
+            q = smarts(text)
+            assert len(q) == len(preds)
+            compiled.append((text, q, preds))
+        except Exception as e:
+            ctx.violation('smarts-not-parsed/%s' % type(e).__name__, '%s: %r' % (text, e), {'pattern': text, 'target': ''})
     targets = []
     src = [c[i] for k, i in enumerate(ids[:cfg['n_targets']]) if ctx.mine(k)]
     src += [s for k, (s, _) in enumerate(G.special()) if ctx.mine(k)]
@@ -275,6 +314,8 @@ def worker(ctx):
                     check_pair(ctx, q, t, qs, tname, rng, True)
             except Exception as e:
                 ctx.note('pair generation failed on %s: %r' % (tname, e))
+        if any(a.ring_sizes for _, a in t.atoms()) and rng.random() < .5:
+            semantic_patterns(ctx, t, tname, rng, compiled)
         if len(t) <= 16:
             automorphisms(ctx, t, tname)
         # search, grow the target (or the pattern) in place, search again: the second search sees the structure as it is now
